@@ -348,6 +348,8 @@ def corr_history(ctx: Ctx, drv):
 
 
 def run(ctx: Ctx):
+    from ..translate import gen
+    gen.regenerate(ctx, ["ProcState"])
     leanproj.check_theorems(ctx, MODULE, THEOREMS)
     drv = leanproj.Driver()
     try:
